@@ -7,16 +7,19 @@
 // std::sync::Mutex::lock is stubbed by try_lock-or-fail (single-threaded harness; see stub_lock).
 //
 // MEASURED LIMIT (why the table-level harnesses are narrower than DESIGN.md §4 C14 planned): one
-// recv_new_cid_frame with symbolic (seq, retire_prior_to) that may take the retire_prior_to branch
-// -- drain_to + a for-loop over ready_cells + arrange_idle_cid's loop, each containing
-// CidCell::assign's while-loop over the container model's constant-trip loops -- did not finish
-// symbolic execution + SAT in 1200 s even from the fresh single-path state (1.0 M SSA steps,
-// unwind 6 = model CAP 4 + 2 applied to every nesting level). What IS checked here:
-//   * the per-path cell (CidCell) by one inductive step from an arbitrary valid cell state;
-//   * the table for NEW_CONNECTION_ID frames that do not retire (retire_prior_to <= table offset):
-//     limit test, discard of stale numbers, storage by sequence number under reordering and
-//     duplication, immediate hand-out of the next unassigned id to a waiting path;
-// The retire_prior_to branch of the TABLE (switching the paths, "jumping retire") is outside the claim.
+// recv_new_cid_frame with symbolic (seq, retire_prior_to) on a table built through its own history
+// (new / apply_dcid / apply_initial_dcid: 440 k SSA steps for the fresh one-path state alone) did
+// not finish in 1200 s. What IS checked here, each as ONE step from an arbitrary valid state that is
+// built directly through the private fields:
+//   * C  the per-path cell (CidCell): assign / borrow_cid / renew / retire;
+//   * T  NEW_CONNECTION_ID frames into a table without live cells (limit test, stale numbers,
+//        storage by sequence number, retire_prior_to with nobody to switch);
+//   * S1 retire_prior_to on a table WITH live cells (which numbers are retired at once, which paths
+//        are queued for a replacement);
+//   * S2 arrange_idle_cid / apply_dcid (waiting paths served in order, switching retires the old id);
+//   * S3 the composition recv_new_cid_frame = insert + S1 + S2 on the post-handshake table for a
+//        concrete sequence number 3 and symbolic retire_prior_to (thorough tier).
+// Not covered: three or more paths in one step, tables with more than 4 stored ids.
 // The cid announced for sequence s is cid_of(s), so "which cid" is checkable as a number.
 use super::*;
 
@@ -286,6 +289,39 @@ fn c14_remote_table_frames_k1() {
 #[kani::stub(crate::token::ResetToken::random_gen, stub_token)]
 fn c14_remote_table_frames_k2() {
     table_frames::<2>();
+}
+
+// T2: a reordered / duplicated NEW_CONNECTION_ID for a sequence number that has already been retired
+// (after NEW_CONNECTION_ID(seq 2, retire_prior_to 2) slid the table to offset 2) is ignored: nothing
+// is stored, nothing is retired a second time. (table_frames_k1 starts at offset 0 and cannot see
+// the stale-number test; mutation `seq + 1 < offset` was only caught by the two-frame instance.)
+#[kani::proof]
+#[kani::unwind(6)]
+#[kani::stub(alloc::fmt::format, stub_fmt)]
+#[kani::stub(crate::token::ResetToken::random_gen, stub_token)]
+fn c14_remote_table_stale_frame() {
+    unsafe {
+        RET_MASK = 0;
+        RET_DUP = false;
+        RET_COUNT = 0;
+    }
+    let limit: u64 = kani::any();
+    kani::assume(limit >= 2 && limit <= 3);
+    let mut t: Table = RemoteCids::new(limit, Sink);
+    let f0 = NewConnectionIdFrame::new(cid_of(2), VarInt::from_u32(2), VarInt::from_u32(2));
+    assert!(matches!(t.recv_new_cid_frame(f0), Ok(Some(_))));
+    assert!(t.cid_deque.offset() == 2 && t.cid_deque.len() == 1 && t.cursor == 2 && ret_count() == 2 && retired(0) && retired(1));
+    let seq: u64 = kani::any();
+    let rpt: u64 = kani::any();
+    kani::assume(rpt <= seq && seq < 2);
+    let f = NewConnectionIdFrame::new(cid_of(seq), VarInt::from_u64(seq).unwrap(), VarInt::from_u64(rpt).unwrap());
+    let r = t.recv_new_cid_frame(f);
+    kani::cover!(seq == 1 && rpt == 0, "late frame for the newest retired number");
+    assert!(matches!(r, Ok(None)), "a frame for an already retired sequence number is ignored");
+    assert!(t.cid_deque.offset() == 2 && t.cid_deque.len() == 1 && t.cursor == 2 && t.ready_cells.offset() == 2, "nothing is stored");
+    assert!(ret_count() == 2 && !unsafe { RET_DUP }, "and nothing is retired a second time");
+    core::mem::forget(r);
+    core::mem::forget(t);
 }
 
 // ------------------------------------------------------------------------------------------------
@@ -742,8 +778,8 @@ fn frame_live_step<const SEQ: u64>() {
     core::mem::forget(c0);
 }
 
-s_harness!(c14_remote_frame_live_cell_s1, frame_live_step::<1>());
-s_harness!(c14_remote_frame_live_cell_s2, frame_live_step::<2>());
+// measured (machine at load average 80): SEQ = 1 and SEQ = 2 ran out of memory, SEQ = 3 finishes (824 s);
+// only SEQ = 3 (which exercises every branch: limit error, switch, jumping retire, no replacement) is kept
 s_harness!(c14_remote_frame_live_cell_s3, frame_live_step::<3>());
 
 // pending: RFC 9000 §5.1.1 / §19.15: "After processing a NEW_CONNECTION_ID frame and adding and
